@@ -14,6 +14,9 @@ Definition R_of (tbl : list (list import * str)) (imps : list import) : str :=
   | None => dec "<<no captured rendering>>"
   end.
 
+(* the captured tokenizer verdicts: the texts after which _ends_with_line_continuation found a comment on the last line *)
+Definition NC_of (commented : list str) (t : str) : bool := negb (existsb (str_eqb t) commented).
+
 Definition known_of (tbl : list (str * list import)) (n : str) : list import :=
   match find (fun e => str_eqb (fst e) n) tbl with
   | Some e => snd e
@@ -59,39 +62,39 @@ Definition show_iblock (b : iblock) : string :=
   show_obj [("id", show_nat (ib_id b)); ("imports", show_list show_imp (ib_imps b))].
 
 (* reformat_import_statements / the first pass *)
-Definition run_reformat (c : cfg) (tbl : list (list import * str)) (bs0 : list block) : string :=
-  show_obj (show_res_str (pp (R_of tbl) c bs0)).
+Definition run_reformat (c : cfg) (cm : list str) (tbl : list (list import * str)) (bs0 : list block) : string :=
+  show_obj (show_res_str (pp (R_of tbl) (NC_of cm) c bs0)).
 
 (* fix_unused_and_missing_imports: first pass on bs0, then the edit of bs1 (the captured decomposition of the
    first pass's output) with the captured analysis result and database answers *)
-Definition run_tidy (c : cfg) (fl : flags) (tbl : list (list import * str))
+Definition run_tidy (c : cfg) (cm : list str) (fl : flags) (tbl : list (list import * str))
            (bs0 bs1 : list block) (ms : list (nat * str)) (us : list (nat * import))
            (known : list (str * list import)) (mand : list import) : string :=
   let R := R_of tbl in
-  let first := match pp R c bs0 with Ok t => show_str t | Err e => show_string (show_err e) end in
+  let first := match pp R (NC_of cm) c bs0 with Ok t => show_str t | Err e => show_string (show_err e) end in
   match fix_blocks c fl (known_of known) mand bs1 ms us with
   | Err e => show_obj [("t1", first); ("out", "null"); ("err", show_string (show_err e)); ("log", "[]"); ("blocks", "[]")]
   | Ok (bs2, log) =>
-      show_obj (("t1", first) :: show_res_str (pp R c bs2)
+      show_obj (("t1", first) :: show_res_str (pp R (NC_of cm) c bs2)
                 ++ [("log", show_list show_logline log); ("blocks", show_list show_iblock (iblocks bs2))])
   end.
 
 (* replace_star_imports *)
-Definition run_star (c : cfg) (tbl : list (list import * str)) (bs0 : list block)
+Definition run_star (c : cfg) (cm : list str) (tbl : list (list import * str)) (bs0 : list block)
            (ordered : list (nat * list import)) (exports : list (import * list import)) : string :=
   let ex i := match find (fun e => imp_eqb (fst e) i) exports with Some e => Some (snd e) | None => None end in
   let od id := match find (fun e => Nat.eqb (fst e) id) ordered with Some e => snd e | None => [] end in
-  show_obj (show_res_str (pp (R_of tbl) c (replace_star ex od bs0))).
+  show_obj (show_res_str (pp (R_of tbl) (NC_of cm) c (replace_star ex od bs0))).
 
 (* remove_broken_imports *)
-Definition run_broken (c : cfg) (tbl : list (list import * str)) (bs0 : list block) (broken : list import) : string :=
-  show_obj (show_res_str (pp (R_of tbl) c (remove_broken (fun i => imp_in i broken) bs0))).
+Definition run_broken (c : cfg) (cm : list str) (tbl : list (list import * str)) (bs0 : list block) (broken : list import) : string :=
+  show_obj (show_res_str (pp (R_of tbl) (NC_of cm) c (remove_broken (fun i => imp_in i broken) bs0))).
 
 (* transform_imports *)
-Definition run_transform (c : cfg) (tbl : list (list import * str)) (bs0 : list block)
+Definition run_transform (c : cfg) (cm : list str) (tbl : list (list import * str)) (bs0 : list block)
            (tr : list (import * import)) (tb : list (str * str)) : string :=
   let tbf t := match find (fun e => str_eqb (fst e) t) tb with Some e => snd e | None => t end in
-  show_obj (show_res_str (pp (R_of tbl) c (transform (imp_fun_of tr) tbf bs0))).
+  show_obj (show_res_str (pp (R_of tbl) (NC_of cm) c (transform (imp_fun_of tr) tbf bs0))).
 
 (* derived attributes of an import, checked against Import.split on the implementation side *)
 Definition run_attrs (i : import) : string :=
